@@ -181,6 +181,10 @@ def symbols_of(decl):
         return [s]
     if k == 'extern_var':
         return [FSym(CSYMBOL_TYPE_OBJECT, decl['name'], build_type(decl['type'], f, ln), f, ln)]
+    if k == 'function_macro':
+        # #define NAME(a,b) ... : kind FUNCTION_MACRO, chain FUNCTION(child_list), parameters untyped
+        params = [FSym(CSYMBOL_TYPE_INVALID, n, None, f, ln) for n in decl['params']]
+        return [FSym(CSYMBOL_TYPE_FUNCTION_MACRO, decl['name'], FType(CTYPE_FUNCTION, None, None, params), f, ln)]
     raise ValueError('unknown declaration %r' % (k,))
 
 
@@ -256,6 +260,8 @@ def c_text(decl):
         return '#define %s %s' % (decl['name'], v)
     if k == 'extern_var':
         return 'extern %s;' % c_type(decl['type'], decl['name'])
+    if k == 'function_macro':
+        return '#define %s(%s) (...)' % (decl['name'], ', '.join(decl['params']))
     return '/* ? */'
 
 
